@@ -6,6 +6,7 @@ import (
 	"go/types"
 	"math"
 	"math/big"
+	"sort"
 	"strconv"
 	"strings"
 
@@ -232,6 +233,28 @@ func (ex *Exec) callIntrinsic(fr *frame, pos token.Pos, fn *ssa.Function, args [
 		ex.protectVal(args[1], ex.labelOf(args[0]), map[*value]bool{})
 		return nil
 	case "CheckFrames":
+		return nil
+	case "IgnorePanics":
+		ex.lim.NoPanicCheck = true
+		return nil
+	case "SortStrings":
+		xs, _ := args[0].([]value)
+		type kv struct {
+			k string
+			v value
+		}
+		var items []kv
+		for _, x := range xs {
+			c, ok := x.(*Str).concrete()
+			if !ok {
+				panic(ex.unsupported("SortStrings on symbolic strings"))
+			}
+			items = append(items, kv{c, x})
+		}
+		sort.Slice(items, func(i, j int) bool { return items[i].k < items[j].k })
+		for i := range xs {
+			xs[i] = items[i].v
+		}
 		return nil
 	}
 	panic(ex.unsupported("verifrt." + name))
